@@ -15,7 +15,7 @@ import json
 import random
 
 from .. import vlib
-from ..eccrig import SECP, SMALL, Enc, h_add, h_G, h_mul, retarget
+from ..eccrig import SECP, SMALL, Enc, h_add, h_G, h_mul, retarget, retarget_applies, probe_verify
 from .c03 import judge
 
 
@@ -33,6 +33,8 @@ def _stage_ab(ctx):
         if acc == 0 or acc == len(rows):
             raise vlib.MachineryFailure(f"{cfg}: vacuous table ({acc} accepting of {len(rows)})")
         n = 0
+        if not retarget_applies(c, probe_verify, ctx, "ecmath.verify"):
+            continue
         with retarget(c):
             for row in rows:
                 _, _, rr, ss, q, z, want = row
